@@ -643,3 +643,121 @@ Proof.
            destruct (y <? k); [|reflexivity]. apply Fgt. exact Hy.
         -- intros y Hy. cbn [avl_find]. cmp2 y k. apply Flt. exact Hy.
 Qed.
+
+Lemma avl_remove_inv k t : avl_inv t -> avl_inv (fst (avl_remove k t)).
+Proof.
+  intros (Hs & Hb). unfold avl_remove. destruct (avl_find k t); [|split; assumption].
+  cbn [fst]. apply search_tree_iff_bst in Hs. destruct Hs as (lo & hi & Hs).
+  pose proof (rem_spec t (ByKey k) lo hi Hb Hs) as P. unfold rem_post in P.
+  destruct P as (B & _ & S & _). split; [|exact B]. apply search_tree_iff_bst. eauto.
+Qed.
+
+Lemma avl_remove_find k t : avl_inv t ->
+  snd (avl_remove k t) = (if avl_find k t then true else false) /\
+  forall y, avl_find y (fst (avl_remove k t)) = if y =? k then None else avl_find y t.
+Proof.
+  intros (Hs & Hb). unfold avl_remove. destruct (avl_find k t) eqn:E; cbn [fst snd].
+  - split; [reflexivity|]. apply search_tree_iff_bst in Hs. destruct Hs as (lo & hi & Hs).
+    pose proof (rem_spec t (ByKey k) lo hi Hb Hs) as P. unfold rem_post in P.
+    destruct P as (_ & _ & _ & F). exact F.
+  - split; [reflexivity|]. intros y. destruct (Z.eqb_spec y k); [subst; exact E|reflexivity].
+Qed.
+
+Lemma avl_insert_dup k v t w : avl_find k t = Some w -> avl_insert k v t = (t, false).
+Proof. intros H. unfold avl_insert. rewrite (ins_dup k v t w H). reflexivity. Qed.
+
+Lemma avl_insert_new k v t : avl_inv t -> avl_find k t = None ->
+  snd (avl_insert k v t) = true /\
+  forall y, avl_find y (fst (avl_insert k v t)) = if y =? k then Some v else avl_find y t.
+Proof.
+  intros (Hs & Hb) Hf. apply search_tree_iff_bst in Hs. destruct Hs as (lo & hi & Hs).
+  assert (Hw : bst (Z.min lo (k - 1)) (Z.max hi (k + 1)) t) by (eapply bst_weaken; eauto; lia).
+  pose proof (ins_new k v t _ _ Hw ltac:(lia) Hf) as (Hi & Hy).
+  unfold avl_insert, tree_of in *. destruct (ins k v t) as [[t' g] i]. cbn [fst snd] in *. auto.
+Qed.
+
+(* ---------- the tree answers every history like a map ---------- *)
+
+Definition avl_agree (t : tree) (m : @fmap Z) : Prop :=
+  avl_inv t /\ forall y, avl_find y t = m y.
+
+Lemma avl_step_agree t m o : avl_agree t m ->
+  avl_agree (fst (avl_step t o)) (fst (map_step_reject Z.eq_dec m o)) /\
+  snd (avl_step t o) = snd (map_step_reject Z.eq_dec m o).
+Proof.
+  intros (Hinv & Hf). destruct o as [k v|k|k]; cbn [avl_step map_step_reject].
+  - rewrite <- (Hf k). destruct (avl_find k t) as [w|] eqn:E.
+    + rewrite (avl_insert_dup k v t w E). cbn [fst snd]. split; [split; assumption|reflexivity].
+    + pose proof (avl_insert_new k v t Hinv E) as (Hi & Hy).
+      pose proof (avl_insert_inv k v t Hinv) as Hinv'.
+      destruct (avl_insert k v t) as [t' ok]. cbn [fst snd] in *. subst ok.
+      split; [|reflexivity]. split; [exact Hinv'|].
+      intros y. rewrite Hy. unfold upd. destruct (Z.eqb_spec y k); destruct (Z.eq_dec y k); try congruence; try apply Hf.
+  - cbn [fst snd]. rewrite Hf. split; [split; assumption|reflexivity].
+  - pose proof (avl_remove_find k t Hinv) as (Hr & Hy).
+    pose proof (avl_remove_inv k t Hinv) as Hinv'.
+    destruct (avl_remove k t) as [t' ok]. cbn [fst snd] in *. subst ok.
+    rewrite <- (Hf k). destruct (avl_find k t) eqn:E; cbn [fst snd].
+    + split; [|reflexivity]. split; [exact Hinv'|].
+      intros y. rewrite Hy. unfold upd. destruct (Z.eqb_spec y k); destruct (Z.eq_dec y k); try congruence; try apply Hf.
+    + split; [|reflexivity]. split; [exact Hinv'|].
+      intros y. rewrite Hy. destruct (Z.eqb_spec y k); [subst; rewrite <- Hf; auto|apply Hf].
+Qed.
+
+Lemma avl_refines ops :
+  snd (run avl_step Leaf ops) = snd (run (map_step_reject Z.eq_dec) empty_map ops) /\
+  avl_inv (fst (run avl_step Leaf ops)) /\
+  forall y, avl_find y (fst (run avl_step Leaf ops)) = fst (run (map_step_reject Z.eq_dec) empty_map ops) y.
+Proof.
+  assert (H0 : avl_agree Leaf (@empty_map Z)).
+  { split; [split; exact I|]. intros y. reflexivity. }
+  pose proof (run_sim avl_agree avl_step (map_step_reject Z.eq_dec) avl_step_agree ops Leaf empty_map H0) as ((Hi & Hf) & Ho).
+  auto.
+Qed.
+
+(* the invariant holds after every history (also a corollary of the above) *)
+Lemma avl_inv_run ops t : avl_inv t -> avl_inv (fst (run avl_step t ops)).
+Proof.
+  revert t. induction ops as [|o ops IH]; intros t H; cbn [run]; [exact H|].
+  destruct (avl_step t o) as [t1 x] eqn:E.
+  assert (H1 : avl_inv t1).
+  { destruct o as [k v|k|k]; cbn [avl_step] in E.
+    - pose proof (avl_insert_inv k v t H). destruct (avl_insert k v t). inversion E; subst. exact H0.
+    - inversion E; subst. exact H.
+    - pose proof (avl_remove_inv k t H). destruct (avl_remove k t). inversion E; subst. exact H0. }
+  specialize (IH t1 H1). destruct (run avl_step t1 ops). exact IH.
+Qed.
+
+(* the executable check printed by the model driver decides the invariant *)
+Lemma bst_b_sound t : forall lo hi, bst_b lo hi t = true ->
+  all_keys (fun x => lt_opt_l lo x = true /\ lt_opt_r x hi = true) t /\ search_tree t.
+Proof.
+  induction t as [|l IHl k v b r IHr]; cbn [bst_b all_keys search_tree]; intros lo hi H; [auto|].
+  rewrite !andb_true_iff in H. destruct H as (((H1 & H2) & H3) & H4).
+  destruct (IHl _ _ H3) as (A1 & S1). destruct (IHr _ _ H4) as (A2 & S2).
+  repeat split; auto.
+  - eapply all_keys_impl; [|exact A1]. cbn. intros x (Hx1 & Hx2). split; auto.
+    apply Z.ltb_lt in Hx2. destruct hi; cbn in *; auto. apply Z.ltb_lt in H2. apply Z.ltb_lt. lia.
+  - eapply all_keys_impl; [|exact A2]. cbn. intros x (Hx1 & Hx2). split; auto.
+    apply Z.ltb_lt in Hx1. destruct lo; cbn in *; auto. apply Z.ltb_lt in H1. apply Z.ltb_lt. lia.
+  - eapply all_keys_impl; [|exact A1]. cbn. intros x (_ & Hx). apply Z.ltb_lt. exact Hx.
+  - eapply all_keys_impl; [|exact A2]. cbn. intros x (Hx & _). apply Z.ltb_lt. exact Hx.
+Qed.
+
+Lemma avl_okb_sound t : avl_okb t = true -> avl_inv t.
+Proof.
+  unfold avl_okb. rewrite andb_true_iff. intros (H1 & H2). split.
+  - apply (bst_b_sound t None None H2).
+  - apply balanced_b_iff. exact H1.
+Qed.
+
+(* non-vacuity: a concrete history with a right-left double rotation on insert
+   and a rebalancing removal; the final tree satisfies the invariant by computation *)
+Example avl_example :
+  let ops := [Ins 10 1; Ins 30 2; Ins 20 3; Ins 40 4; Ins 25 5; Ins 22 6; Ins 22 7; Rem 10; Rem 40; Find 22; Find 10] in
+  snd (run avl_step Leaf ops) =
+    [RIns true; RIns true; RIns true; RIns true; RIns true; RIns true; RIns false; RRem true; RRem true;
+     RFind (Some 6); RFind None] /\
+  fst (run avl_step Leaf ops) = Node (Node Leaf 20 3 1 (Node Leaf 22 6 0 Leaf)) 25 5 (-1) (Node Leaf 30 2 0 Leaf) /\
+  avl_okb (fst (run avl_step Leaf ops)) = true.
+Proof. vm_compute. repeat split. Qed.
